@@ -102,7 +102,7 @@ def j_nick(ctx):
                     obs.append(('nick:rank', f'NICK: rank {rk} on {c} is carried over', Implies(And(ok, pre.member(a, c)), Iff(post.rank(new, c, rk), pre.rank(a, c, rk)))))
             obs.append(('nick:wallops', 'NICK: WALLOPS reception moves to the new nick', Implies(ok, Iff(post.wallops.get(new, False), pre.wallops.get(a, False)))))
             obs.append(('nick:wallops', 'NICK: the old nick leaves the WALLOPS audience', Implies(ok, Not(post.wallops.get(a, False)))))
-            want_src = f'{new}!~{a}@127.0.0.1'
+            want_src = f'{new}!~{w.spec.uname(a)}@127.0.0.1'
             obs.append(('nick:source', 'NICK: the user is known by its new nick!user@host', Implies(ok, M.values_equal(un['source'], mkstr(want_src)))))
         hl = post.histories.get(a, (False, None))[0]
         obs.append(('nick:history', 'NICK: the old nick is recorded for WHOWAS', Implies(ok, hl)))
